@@ -252,6 +252,15 @@ def delegation_summary(name):
             if k != "_logger":
                 f.interp.ctx.log_write(st, k)
                 st.fields[k] = Opaque("state.%s after %s" % (k, name))
+        # the handlers parse the command with their own parser instance
+        parser = f.self.fields.get("gcodeParser") if name == "handleGcode" else None
+        if hasattr(parser, "fields"):
+            for k in list(parser.fields):
+                f.interp.ctx.log_write(parser, k)
+                parser.fields[k] = Opaque("handlers.gcodeParser.%s after %s" % (k, name))
+        override = f.g.get("delegate_result")
+        if override is not None:
+            return override(f, name, tok)
         return tok
     return summary
 
